@@ -76,7 +76,13 @@ class Work(dawgie.Algorithm, dawgie.Analyzer, dawgie.Regression):
         return self._svs
 
     def where(self):
-        return dawgie.Distribution.cluster
+        # where the algorithm asks to run: left to the farm, on the cluster, or
+        # in the cloud (no cloud provider is configured in the harness: the
+        # farm must place all three on the cluster)
+        w = self._d.get('where')
+        if w is None:
+            w = ('auto', 'cluster', 'cloud')[sum(map(ord, self._d['name'])) % 3]
+        return getattr(dawgie.Distribution, w)
 
 
 def build(desc):
